@@ -83,7 +83,9 @@ def main():
       sample = desc
     try:
       fs = FakeSelf()
-      cout = ci if depthwise else co
+      dm = int(rng.integers(1, 3)) if depthwise else 1
+      desc["depth_multiplier"] = dm
+      cout = ci * dm if depthwise else co
       fs.batchnorm = FakeBN(cout, rng, center=center, scale=scale, tiny_var=tiny, zero_gamma=zg and scale)
       fs.ema_freeze_delay = None
       fs.use_bias = use_bias
@@ -96,8 +98,8 @@ def main():
       fs.activation = None
       x = tf.constant(rng.normal(0, 1, size=(2, 7, 7, ci)).astype("float32"))
       if depthwise:
-        fs.depthwise_kernel = tf.constant(rng.normal(0, 1, size=(3, 3, ci, 1)).astype("float32"))
-        fs.depth_multiplier = 1
+        fs.depthwise_kernel = tf.constant(rng.normal(0, 1, size=(3, 3, ci, dm)).astype("float32"))
+        fs.depth_multiplier = dm
         fs.depthwise_quantizer = kq
         fs.depthwise_quantizer_internal = get_quantizer(kq) if kq else None
         y = QDepthwiseConv2DBatchnorm.call(fs, x, training=False).numpy()
@@ -119,7 +121,7 @@ def main():
       # documented formulas for the folded weights
       inv = g * r
       want_fb = ((b - bn.moving_mean) * inv + bn.beta).numpy()
-      want_fk = (kern * (tf.reshape(inv, (ci, 1)) if depthwise else inv)).numpy()
+      want_fk = (kern * (tf.reshape(inv, (ci, dm)) if depthwise else inv)).numpy()    # output channel c*dm + m <-> kernel[:, :, c, m]
       tolw = 1e-5 * (1.0 + float(np.max(np.abs(want_fk))))
       if not (np.allclose(fk, want_fk, rtol=1e-4, atol=tolw) and np.allclose(fb, want_fb, rtol=1e-4, atol=1e-5 * (1 + float(np.max(np.abs(want_fb)))))):
         rep.violation(f"folded-weights-{i}", f"{desc}: get_folded_weights differs from kernel*gamma/sqrt(var+eps), (bias-mean)*gamma/sqrt(var+eps)+beta",
